@@ -1,4 +1,4 @@
 From Coq Require Extraction.
 From Coq Require Import ExtrOcamlBasic.
 From RM Require Import C17.Driver.
-Extraction "c17_model.ml" run_case run_case_obs url_case base_case fs_case resolve_case.
+Extraction "c17_model.ml" run_case run_case_obs url_case base_case fs_case resolve_case redirect_case.
